@@ -14,6 +14,7 @@
 
 static long ncases(int tier) { return tier ? 100000 : 3000; }
 
+/* GEN-BEGIN (generator shared verbatim by c03.c and c04.c) */
 #define EPS 2.220446049250313e-16
 
 typedef struct {
@@ -25,7 +26,7 @@ typedef struct {
   size_t nxm, nxsc, nym, nysc;
   ld kappa, smin;
   double noise;
-  int corr, lowdim, icpt, regime;
+  int corr, lowdim, icpt, regime, ortho, yorth;
   const char *skip;
 } gcase;
 
@@ -95,10 +96,15 @@ static void gen_case(vh_ctx *c, gcase *g, size_t pmax, size_t nymax, double kmax
   s = calloc(p, sizeof(ld));
   ktarget = vh_logunif(c, 0.0, log10(kmax) - 0.7);
   for (k = 0; k < p; k++) s[k] = (ld)(pow(ktarget, p > 1 ? -(double)k / (double)(p - 1) : 0.0) * vh_range(c, 0.8, 1.25));
+  /* orthogonal design (X_pre'X_pre ~ c I for most scalings): the PLS sequence is complete after one latent variable,
+     the following ones have nothing left to model although nlv <= rank */
+  g->ortho = (p >= 2 && vh_coin(c, 0.04));
+  if (g->ortho) for (k = 0; k < p; k++) s[k] = 1;
   Z = ldm_new(n, p);
   for (i = 0; i < n; i++) for (j = 0; j < p; j++) { ld a = 0; for (k = 0; k < p; k++) a += LM(U, i, k) * s[k] * LM(Q, j, k); LM(Z, i, j) = a; }
   base = vh_range(c, -1.0, 1.0);
   width = (xs == 1 || xs == 2 || xs == 4) ? vh_range(c, 0.0, 3.0) : vh_range(c, 0.0, 1.0);
+  if (g->ortho && xs != 1) width = 0;
   ratio = vh_logunif(c, -0.5, 1.5);
   g->icpt = (xs == -1 && p >= 2 && vh_coin(c, 0.15));
   NewMatrix(&g->mx, n, p);
@@ -142,7 +148,10 @@ static void gen_case(vh_ctx *c, gcase *g, size_t pmax, size_t nymax, double kmax
     double r = vh_unif(c);
     g->noise = NOISE_LEVELS[r < 0.15 ? 0 : r < 0.3 ? 1 : r < 0.6 ? 2 : r < 0.85 ? 3 : 4];
     g->lowdim = (p >= 3 && g->noise > 0 && vh_coin(c, 0.15));
-    g->corr = (ny > 1 && vh_coin(c, 0.4));
+    /* a first response without any information about X (orthogonal to the columns of X_pre and to the constant), given the
+       largest spread so that NIPALS starts from it; the other responses are ordinary */
+    g->yorth = (ny >= 2 && n >= p + 4 && vh_coin(c, 0.04));
+    g->corr = (ny > 1 && !g->yorth && vh_coin(c, 0.4));
     if (g->lowdim) {
       size_t rdim = (size_t)vh_int(c, 1, (long)p - 1);
       for (j = 0; j < ny; j++) for (k = 0; k < rdim; k++) { ld co = vh_gauss(c); for (i = 0; i < n; i++) LM(S, i, j) += co * LM(Us, i, k); }
@@ -158,6 +167,19 @@ static void gen_case(vh_ctx *c, gcase *g, size_t pmax, size_t nymax, double kmax
       if (v < 1e-9L) { g->skip = "signal without spread"; v = 1; }
       for (i = 0; i < n; i++) LM(S, i, j) = LM(S, i, j) / v + (ld)(g->noise * vh_gauss(c));
     }
+    if (g->yorth) {
+      ld *v = calloc(n, sizeof(ld)); int pass;
+      for (i = 0; i < n; i++) v[i] = vh_gauss(c);
+      for (pass = 0; pass < 3; pass++) {
+        ld m = 0;
+        for (i = 0; i < n; i++) m += v[i];
+        m /= n;
+        for (i = 0; i < n; i++) v[i] -= m;
+        for (k = 0; k < p; k++) { ld d = 0; for (i = 0; i < n; i++) d += v[i] * LM(Us, i, k); for (i = 0; i < n; i++) v[i] -= d * LM(Us, i, k); }
+      }
+      for (i = 0; i < n; i++) LM(S, i, 0) = v[i];
+      free(v);
+    }
     if (g->corr) for (j = 1; j < ny; j++) { double sg = vh_coin(c, 0.5) ? 1 : -1, own = vh_range(c, 0.05, 0.5); for (i = 0; i < n; i++) LM(S, i, j) = sg * LM(S, i, 0) + own * LM(S, i, j); }
     NewMatrix(&g->my, n, ny);
     {
@@ -165,6 +187,7 @@ static void gen_case(vh_ctx *c, gcase *g, size_t pmax, size_t nymax, double kmax
       for (j = 0; j < ny; j++) {
         ld m = 0, v = 0; double unit = vh_logunif(c, -1.0, 2.5), off = 100.0 * (double)(j + (shift ? 1 : 0));
         if (unit < 0.1) unit = 0.1;
+        if (g->yorth) unit = j == 0 ? 400.0 : unit > 100.0 ? 100.0 : unit;
         for (i = 0; i < n; i++) m += LM(S, i, j);
         m /= n;
         for (i = 0; i < n; i++) v += (LM(S, i, j) - m) * (LM(S, i, j) - m);
@@ -189,6 +212,8 @@ static void gen_case(vh_ctx *c, gcase *g, size_t pmax, size_t nymax, double kmax
     if (ys >= 0 && fabsl(sum) < 1e-4L && fabsl(sum) > 1e-11L * sd) g->skip = "y column sum within the library's zero-mean snap window";
   }
 }
+
+/* GEN-END */
 
 static int shape_is(matrix *m, size_t r, size_t cc) { return m->row == r && m->col == cc; }
 
@@ -223,7 +248,7 @@ static int model_ok(vh_ctx *c, PLSMODEL *m, size_t n, size_t p, size_t ny, size_
 static void run_case(vh_ctx *c)
 {
   gcase g;
-  size_t n, p, ny, nlv, nf, i, j, k, a;
+  size_t n, p, ny, nlv, nreal, nf, i, j, k, a;
   PLSMODEL *m = NULL;
   matrix *mx0, *my0, *mxf = NULL;
   ldm *E = NULL;
@@ -234,8 +259,8 @@ static void run_case(vh_ctx *c)
   n = g.n; p = g.p; ny = g.ny;
   for (noise_idx = 0; noise_idx < 4 && NOISE_LEVELS[noise_idx] != g.noise; noise_idx++) ;
   vh_class(c, "n%s-p%s-ny%zu-xs%d-ys%d-noise%d", n < 10 ? "6-9" : n < 20 ? "10-19" : "20-40", p == 1 ? "1" : p < 5 ? "2-4" : "5-10", ny, g.xs, g.ys, noise_idx);
-  vh_desc(c, "rows=%zu cols=%zu responses=%zu xscaling=%d yscaling=%d regime=%d noise=%g corr=%d lowdim=%d intercept_col=%d kappa=%.3Lg",
-          n, p, ny, g.xs, g.ys, g.regime, g.noise, g.corr, g.lowdim, g.icpt, g.kappa);
+  vh_desc(c, "rows=%zu cols=%zu responses=%zu xscaling=%d yscaling=%d regime=%d noise=%g corr=%d lowdim=%d intercept_col=%d orthogonal_design=%d uninformative_first_response=%d kappa=%.3Lg",
+          n, p, ny, g.xs, g.ys, g.regime, g.noise, g.corr, g.lowdim, g.icpt, g.ortho, g.yorth, g.kappa);
   if (g.skip) { vh_skip(c, "%s", g.skip); gcase_free(&g); return; }
   nlv = vh_coin(c, 0.7) ? p : (size_t)vh_int(c, 1, (long)p);
   { char base[160]; snprintf(base, sizeof base, "%s", c->cls); vh_class(c, "%s-nlv%s", base, nlv == p ? "=rank" : "<rank"); }
@@ -280,21 +305,36 @@ static void run_case(vh_ctx *c)
   }
   tn = calloc(nlv, sizeof(ld)); wn = calloc(nlv, sizeof(ld)); ampT = calloc(nlv, sizeof(ld)); ampW = calloc(nlv, sizeof(ld));
   for (k = 0; k < nlv; k++) { tn[k] = colnorm(m->xscores, k); wn[k] = colnorm(m->xweights, k); }
-  for (k = 0; k < nlv; k++) if (!(tn[k] > 0) || !(wn[k] > 0)) { vh_fail(c, "PLS|zero-component", "LV %zu has |t|=%.3Lg |w|=%.3Lg with nlv <= rank", k + 1, tn[k], wn[k]); goto out; }
+  /* null latent variables (t = w = 0, b = 0): the library's "nothing left to model"; they add nothing to any prediction, so
+     every clause below still applies - in particular the OLS limit decides whether giving up was right */
+  nreal = nlv;
+  for (k = 0; k < nlv; k++) {
+    if (tn[k] == 0 && wn[k] == 0 && m->b->data[k] == 0) { if (nreal == nlv) nreal = k; vh_obs("null_latent_variables", 1); continue; }
+    if (!(tn[k] > 0) || !(wn[k] > 0) || nreal != nlv) { vh_fail(c, "PLS|zero-component", "LV %zu has |t|=%.3Lg |w|=%.3Lg b=%.3g (first null LV: %zu) with nlv <= rank", k + 1, tn[k], wn[k], m->b->data[k], nreal + 1); goto out; }
+  }
   /* amplification factors from a long-double replay of the deflation (see c03.c): score direction SX|w|/|t|, weight direction SX|u|/|E'u| */
   E = ldm_copy(g.Xp);
   for (k = 0; k < nlv; k++) {
     ld eun = 0, un = colnorm(m->yscores, k);
     for (j = 0; j < p; j++) { ld s = 0; for (i = 0; i < n; i++) s += LM(E, i, j) * m->yscores->data[i][k]; eun += s * s; }
-    ampW[k] = SX * un / (sqrtl(eun) + 1e-300L);
-    ampT[k] = SX * wn[k] / tn[k];
+    ampW[k] = k < nreal ? SX * un / (sqrtl(eun) + 1e-300L) : INFINITY;
+    ampT[k] = k < nreal ? SX * wn[k] / tn[k] : SX / g.smin;
     if (ampT[k] > SX / g.smin) ampT[k] = SX / g.smin;   /* |E_{k-1} w|/|w| >= sigma_min(X_pre) by interlacing */
     if (k) { if (ampW[k - 1] > ampW[k]) ampW[k] = ampW[k - 1]; if (ampT[k - 1] > ampT[k]) ampT[k] = ampT[k - 1]; }   /* cumulative maxima */
     for (i = 0; i < n; i++) for (j = 0; j < p; j++) LM(E, i, j) -= (ld)m->xscores->data[i][k] * m->xloadings->data[j][k];
   }
 
+  if (getenv("C04_TRACE")) {
+    for (k = 0; k < nlv; k++) {
+      fprintf(stderr, "LV %zu |t|=%.3Lg |w|=%.3Lg b=%.3g |u|=%.3Lg q=", k + 1, tn[k], wn[k], m->b->data[k], colnorm(m->yscores, k));
+      for (j = 0; j < ny; j++) fprintf(stderr, "%.3g ", m->yloadings->data[j][k]);
+      fprintf(stderr, " cos(t,prev)=");
+      for (i = 0; i < k; i++) { ld d = 0; size_t r; for (r = 0; r < n; r++) d += (ld)m->xscores->data[r][i] * m->xscores->data[r][k]; fprintf(stderr, "%.2Lg ", d / (tn[i] * tn[k])); }
+      fprintf(stderr, "\n");
+    }
+  }
   /* ---- (A) inner relation b_k = u_k't_k/t_k't_k; (B) b_k q_jk = t_k'Y_pre_j/t_k't_k ---- */
-  for (k = 0; k < nlv; k++) {
+  for (k = 0; k < nreal; k++) {
     ld ut = 0, un = colnorm(m->yscores, k), d, unit;
     for (i = 0; i < n; i++) ut += (ld)m->yscores->data[i][k] * m->xscores->data[i][k];
     d = fabsl(ut / (tn[k] * tn[k]) - m->b->data[k]);
@@ -383,7 +423,13 @@ static void run_case(vh_ctx *c)
       initDVector(&bet);
       PLSBetasCoeff(m, a, bet);
       if (bet->size != p) { vh_fail(c, "PLSBetasCoeff|size", "%zu coefficients for %zu variables", bet->size, p); DelDVector(&bet); ldm_free(PW); break; }
-      for (i = 0; i < a; i++) for (j = 0; j < a; j++) { ld s = 0; for (k = 0; k < p; k++) s += (ld)m->xloadings->data[k][i] * m->xweights->data[k][j]; LM(PW, i, j) = s; }
+      /* null latent variables contribute nothing: the coefficient form is W_r (P_r'W_r)^-1 b_r over the real ones (identity block otherwise) */
+      for (i = 0; i < a; i++) for (j = 0; j < a; j++) {
+        ld s = 0;
+        for (k = 0; k < p; k++) s += (ld)m->xloadings->data[k][i] * m->xweights->data[k][j];
+        LM(PW, i, j) = (i < nreal && j < nreal) ? s : (i == j ? 1 : 0);
+      }
+      if (a > nreal) vh_obs("beta_requests_spanning_null_lvs", 1);
       for (k = 0; k < p; k++) for (j = 0; j < a; j++) wf += (ld)m->xweights->data[k][j] * m->xweights->data[k][j];
       for (j = 0; j < a; j++) bf += (ld)m->b->data[j] * m->b->data[j];
       wf = sqrtl(wf); bf = sqrtl(bf); pwf = ldm_frob(PW);
